@@ -62,6 +62,9 @@ def search(ctx, broken, corr_broken):
     if not hit:
         hit, n3 = deccorr.monitor_datapage(ctx)
         n += n3
+    if not hit:
+        hit, n4 = deccorr.monitor_shared_settings(ctx)
+        n += n4
     LAST_SEARCH_CANDIDATES = n
     if hit:
         return [{"key": f"C16/{hit['kind']}/{common.short_hash(hit)}", "what": hit["what"], "replay": hit}]
@@ -73,6 +76,9 @@ def replay(rp):
         harness.load_repo()
         why = deccorr.datapage_probe(rp["pgn"], rp["prio"], rp["src"], rp["dst"], bytes.fromhex(rp["data"]), rp["first_twin"])
         return why is None, why or "holds now"
+    if rp.get("kind") == "shared-settings":
+        hit, n = deccorr.monitor_shared_settings({"repo": common.REPO, "seed": rp.get("seed", 0), "tier": "quick"})
+        return hit is None, (hit["what"] if hit else f"{n} steps: decoders built from shared settings objects agree with decoders built from copies")
     if rp.get("kind") not in ("isolation", "probe", "rejected-input"):
         return False, "not an input replay: " + str(rp.get("broken_theorems") or rp.get("broken_correspondence"))[:500]
     outs = deccorr.replay_history(rp)
